@@ -1762,9 +1762,13 @@ class SparseVector:
                     raise IndexError(
                         f'cannot broadcast {vd}-d array on to 1-d sparse array'
                     )
+                if value.__class__ is SparseVector:
+                    other = value.dct
+                    # A dictionary view may wrap the very dictionary that is cleared next
+                    if other.__class__ is not dict: other = other.copy()
                 dct.clear()
                 if value.__class__ is SparseVector:
-                    dct.update(value.dct)
+                    dct.update(other)
                 elif vd == 1:
                     for i, j in enumerate(value):
                         if j: dct[i] = float(j)
